@@ -440,6 +440,43 @@ def _unflushed_write(ops):
     return False
 
 
+def _cas_then_access(prog, ops):
+    """Is a Compare_and_swap followed, inside the same epoch and before any flush of that target, by another call addressing
+    the same element?  (MPI orders the accumulate-family calls of one origin on one location.)"""
+    pend = set()
+    for o in ops:
+        k = o["o"]
+        if k == "FLUSH":
+            pend = {l for l in pend if (l[0], l[1]) != (o["w"], o["t"])}
+        elif k == "FLUSHALL":
+            pend = {l for l in pend if l[0] != o["w"]}
+        elif k in ("UNLOCK", "UNLOCKALL", "FENCE", "COMPLETE"):
+            pend = set()
+        elif k in RMA_OPS:
+            if k in ("FOP", "CAS"):
+                locs = [(o["w"], o["t"], o["idx"])]
+            else:
+                locs = [(o["w"], o["t"], o["idx"] + x)
+                        for x in typemap(prog["types"], o["tt"], o["tc"], prog["wins"][o["w"]]["et"])]
+            if any(l in pend for l in locs):
+                return True
+            if k == "CAS":
+                pend.add(locs[0])
+    return False
+
+
+def _contig_vector_acc(prog):
+    """Accumulate-family call whose target datatype is a vector with stride == blocklength (SMPI builds it as a bare
+    contiguous Datatype)."""
+    bad = {str(i) for i, t in enumerate(prog["types"]) if t["kind"] == "vector" and t["args"][1] == t["args"][2]}
+    for ph in prog["phases"]:
+        for ops in ph["ranks"].values():
+            for o in ops:
+                if o["o"] in ("ACC", "GACC") and o.get("op") != "NO_OP" and (o["tt"] in bad) and o["tc"] > 0:
+                    return True
+    return False
+
+
 def judge(prog, res_out, res_err, rc, v=None):
     """Compare one execution with the model.  Returns a Verdict."""
     v = v or Verdict()
@@ -453,11 +490,16 @@ def judge(prog, res_out, res_err, rc, v=None):
     def et_of(loc):
         return ets[loc[0]]
 
+    # MPI error codes: every generated call is valid, so any error is a refusal to do what the statement describes
+    if obs.errors:
+        r, line, code, op = obs.errors[0]
+        v.bad("C34:%s:mpi-error:%s:rc=%d" % (_phase_of_line(prog, line), op, code),
+              "rank %d: %s returned error %d (script line %d) in a valid program" % (r, op, code, line))
+        return v
     mem = init_memory(prog)
     for pi, ph in enumerate(prog["phases"]):
         kind = ph["kind"]
         tag = "p%d" % pi
-        # MPI errors returned by calls of this phase (script line numbers are not needed: the op name is enough)
         complete = all((tag, w, r) in obs.dumps for w in range(len(prog["wins"])) for r in range(np_))
         if not complete:
             break
@@ -566,8 +608,12 @@ def judge(prog, res_out, res_err, rc, v=None):
             if not ok:
                 feat = ""
                 if kind == "excl":
-                    feat = ":unflushed-write-at-unlock" if any(_unflushed_write(ops) for ops in ph["ranks"].values()) \
-                        else ":all-flushed"
+                    fs = []
+                    if any(_cas_then_access(prog, ops) for ops in ph["ranks"].values()):
+                        fs.append("cas-then-access-unflushed")
+                    if any(_unflushed_write(ops) for ops in ph["ranks"].values()):
+                        fs.append("unflushed-write-at-unlock")
+                    feat = ":" + ("+".join(fs) or "all-flushed")
                 v.bad("C34:%s:not-serialisable%s" % (kind, feat), "phase %d (%s): %s" % (pi, kind, detail))
                 return v
         elif kind == "shared":
@@ -590,6 +636,8 @@ def judge(prog, res_out, res_err, rc, v=None):
                     return v
                 if not ok:
                     labels = sorted({u[0]["label"] for us in byloc[l].values() for u in us})
+                    if "cas" in labels:
+                        labels = ["cas"]
                     v.bad("C34:shared:element-not-serialisable:%s" % "+".join(labels),
                           "phase %d (shared): window %d rank %d element %d (was %r, is %r), %d origins: %s"
                           % (pi, l[0], l[1], l[2], mem[l], final[l], len(byloc[l]), detail))
@@ -600,22 +648,18 @@ def judge(prog, res_out, res_err, rc, v=None):
         mem = final
     else:
         pi = len(prog["phases"])
-    # MPI error codes: every generated call is valid, so any error is a refusal to do what the statement describes
-    if obs.errors:
-        r, line, code, op = obs.errors[0]
-        ph_kind = _phase_of_line(prog, line)
-        v.bad("C34:%s:mpi-error:%s:rc=%d" % (ph_kind, op, code),
-              "rank %d: %s returned error %d (script line %d) in a valid program" % (r, op, code, line))
+    cur = prog["phases"][pi]["kind"] if pi < len(prog["phases"]) else "end"
+    if "Failed to apply" in res_err and _contig_vector_acc(prog):
+        v.bad("C34:accumulate:abort:operator-applied-to-contiguous-vector-type",
+              "phase %d (%s): %s" % (pi, cur, next(l for l in res_err.splitlines() if "Failed to apply" in l)[-160:]))
         return v
     if obs.crash:
         m = re.search(r"op=(\S+)", obs.crash[0])
         opn = m.group(1) if m else "?"
-        cur = prog["phases"][pi]["kind"] if pi < len(prog["phases"]) else "end"
         v.bad("C34:%s:crash:%s:%s" % (cur if opn != "win_free" else kinds, opn, abort_slug(res_err)),
-              "%s | %s" % (obs.crash[0], res_err.strip().splitlines()[0] if res_err.strip() else ""))
+              "%s | %s" % (obs.crash[0], res_err.strip().splitlines()[0][-200:] if res_err.strip() else ""))
         return v
     if len(obs.done) != np_ or rc != 0:
-        cur = prog["phases"][pi]["kind"] if pi < len(prog["phases"]) else "end"
         v.bad("C34:%s:abort:%s" % (cur, abort_slug(res_err)),
               "smpirun rc=%s, %d/%d ranks finished, phase %d: %s" % (rc, len(obs.done), np_, pi, res_err.strip()[-300:]))
     return v
